@@ -42,8 +42,8 @@ def run(tier, seed):
         raise Machinery("%s: %d rows for %d states" % (cfg, len(rows), res["distinct"]))
     ev.tlc(cfg, res, "invariants Identities (accounting, bounds, chroma >= raw), NoTies")
     for k, r in enumerate(rows):
-        if not thorough and (k + seed) % 2:
-            continue
+        if (not thorough and (k + seed) % 2) or (thorough and r["org"] and (k + seed) % 2):
+            continue                   # quick: every second row; thorough: all rows at the origin, every second far-origin row
         o = r["out"]
         rt, et = np.array(o["rt"], dtype=float) * 0.01, np.array(o["et"], dtype=float) * 0.01
         rf, ef = [hz(f) for f in r["rfr"]], [hz(f) for f in r["efr"]]
